@@ -309,16 +309,32 @@ func (s *scheduler) yieldPoint(g *gor, what string) {
 		return
 	}
 	rs := s.runnable()
-	if len(rs) <= 1 {
+	// a pending timer may also expire now (time passes while goroutines are still running)
+	timerPending := false
+	for _, t := range s.timers {
+		if !t.fired && !t.dead {
+			timerPending = true
+		}
+	}
+	if len(rs) <= 1 && !timerPending {
 		return
 	}
 	// order: current first (choice 0 = continue)
 	sort.SliceStable(rs, func(i, j int) bool { return rs[i] == g && rs[j] != g })
-	k := s.r.choose(len(rs))
+	n := len(rs)
+	if timerPending {
+		n++
+	}
+	k := s.r.choose(n)
 	if k == 0 {
 		return
 	}
 	s.preemptions++
+	if k == len(rs) {
+		s.log(fmt.Sprintf("timer expires early (before %s of g%d)", what, g.id))
+		s.fireNextTimer()
+		return
+	}
 	s.log(fmt.Sprintf("preempt g%d(%s) before %s", g.id, g.name, what))
 	s.transfer(g, rs[k])
 }
